@@ -86,12 +86,19 @@ pub open spec fn section_entries(d: Seq<u8>, n: int, w0: int, w1: int, w2: int) 
 }
 
 // ---- spec: writer side -------------------------------------------------------------------------------------------
-pub open spec fn usable(e: XRef) -> bool { e is Free || e is Raw || e is Stream }
+// what a cross-reference stream can say about a number: free, in use, compressed -- and a number that NO section of the file defines
+// (`Invalid`, a gap of the table): ISO 32000-1 7.5.4 / 7.5.8 know no "undefined" entry, such a number is written as a free entry
+// (type 0, next free object 0, generation 0; fix save_fails_on_undefined_entries). Only an open promise cannot be written.
+pub open spec fn usable(e: XRef) -> bool { e is Free || e is Raw || e is Stream || e is Invalid }
 pub open spec fn fields(e: XRef) -> (nat, nat, nat) { match e {
     XRef::Free { next_obj_nr, gen_nr } => (0nat, next_obj_nr as nat, gen_nr as nat),
     XRef::Raw { pos, gen_nr } => (1nat, pos as nat, gen_nr as nat),
     XRef::Stream { stream_id, index } => (2nat, stream_id as nat, index as nat),
+    XRef::Invalid => (0nat, 0nat, 0nat),
     _ => (3nat, 0nat, 0nat) } }
+// the entry a reader finds where `e` was written: `e` itself, a free entry for an undefined number
+pub open spec fn written_as(e: XRef) -> XRef { if e is Invalid { XRef::Free { next_obj_nr: 0, gen_nr: 0 } } else { e } }
+pub open spec fn written(es: Seq<XRef>) -> Seq<XRef> { Seq::new(es.len(), |k: int| written_as(es[k])) }
 
 // ---- lemmas ------------------------------------------------------------------------------------------------------
 proof fn lemma_pow256_vals()
@@ -339,7 +346,7 @@ fn codec_roundtrip(table: &XRefTable, size: usize, resolve: &impl Resolve)
             let r = parse_xref_section_from_stream(0, size, w, &mut d, resolve);
             assert(r is Ok);
             assert(r->Ok_0.first_id == 0);
-            assert(r->Ok_0.entries@ =~= table.entries@.take(size as int));   // the same entries, all of them, in order
+            assert(r->Ok_0.entries@ =~= written(table.entries@.take(size as int)));   // the same entries (undefined numbers as free entries), all of them, in order
             assert(d@.len() == 0);                                            // and every byte is consumed
         }
         Err(_) => {
